@@ -1,6 +1,7 @@
 package wire
 
 import (
+	"io"
 	"context"
 	"errors"
 
@@ -468,12 +469,13 @@ func VerifH19() {
 		}))
 	}
 	hook := 0
-	closedAtHook := -1
+	closedAtHook, eventsAtHook := -1, 0
 	if withHook {
 		opts = append(opts, TerminateConn(func(ctx context.Context) error {
 			hook++
 			if closedAtHook < 0 {
 				closedAtHook = conn.closed
+				eventsAtHook = len(w.events)
 			}
 			return nil
 		}))
@@ -559,8 +561,12 @@ func VerifH19() {
 	// Terminate: only the first X can be reached through a live loop
 	if sawX {
 		if withHook {
-			vAssert("terminate-hook-once-per-Terminate", hook >= 1)
+			// the session ends with the first Terminate: the hook runs exactly once,
+			// before the connection is closed, and nothing pipelined behind the
+			// Terminate is served any more
+			vAssert("terminate-hook-exactly-once", hook == 1)
 			vAssert("terminate-hook-before-close", closedAtHook == 0)
+			vAssert("nothing-served-after-terminate", len(w.events) == eventsAtHook)
 			vReach("terminate-with-hook")
 		} else {
 			vReach("terminate-without-hook")
@@ -620,7 +626,9 @@ func VerifH19x() {
 	wd.ctx = vCtx(srv)
 	got, stepErr := wd.step()
 	vAssert("terminate-no-reply", got == "")
-	vAssert("terminate-step-ok", stepErr == nil)
+	// (the command loop's own way of ending — nil and carry on into a closed
+	// connection, or io.EOF — is an internal matter; any other error is not)
+	vAssert("terminate-step-ok", stepErr == nil || stepErr == io.EOF)
 	vAssert("terminate-closes-connection", wd.conn.closed == 1)
 	if withHook {
 		vAssert("terminate-hook-exactly-once", hook == 1)
